@@ -24,7 +24,7 @@ def run(ctx):
     sims.sort(key=lambda c: -strness(c))
     cases = sims[: (200 if quick else 250)] + rnd.sample(grid, min(len(grid), 150 if quick else 1200))
     # plus one program per string literal of the palette, printed directly and interpolated
-    for s in ["ab", "x y", "q\"t", "b\\s", "{z}", "e'f", "a\\\"b", "tab\\t", "\\", "\"", "end\\"]:
+    for s in ["ab", "x y", "q\"t", "b\\s", "{z}", "e'f", "a\\\"b", "tab\\t", "\\", "\"", "end\\", "\u00e9", "\u3042\u65e5", "\U0001F600", "a\U0001F600\"b"]:
         cases.append({"prog": [{"k": "slit", "op": "", "a": 0, "b": 0, "c": 0, "s": s}, {"k": "print", "op": "", "a": 1, "b": 0, "c": 0, "s": ""}],
                       "out": [s], "status": "ok"})
     votes = cpython_vote([c["prog"] for c in cases], DEFAULT_PY)
